@@ -311,7 +311,7 @@ let run (comp : string) (h : (string, string) Hashtbl.t) : string =
     | "inline" -> case_inline h
     | "identify" -> case_identify h
     | "repeat" -> case_repeat h
-    | "close" -> "ORACLE"
+    | "close" | "plumb" -> "ORACLE"
     | _ -> "UNKNOWN-COMPONENT " ^ comp
   with
   | RPanic -> "PANIC"
